@@ -58,6 +58,19 @@ def check(ctx):
     ex.trust_untyped = False      # the parser's input is untrusted: an unknown static type proves nothing
     ex.entry_fqs = {e.fq for e in entries}
     reach = cg.reachable(entries)
+    js = JsonTypestate(prog, cg, ctx.flow, abs_)
+    run.stats['typestate_iterations'] = js.solve()
+
+    def json_formatted(fn, _callee, cnode, kind):
+        # str(x) / f'{x}' of a value of unknown static type reaches every __str__ of the package - unless x is a decoded
+        # JSON value (dict / list / str / number / bool / None): those are formatted by the builtins
+        if not kind.endswith('-any'):
+            return False
+        e = cnode.value if isinstance(cnode, ast.FormattedValue) else cnode.args[0] if isinstance(cnode, ast.Call) and cnode.args \
+            else None
+        return e is not None and fn.module is js.mod and js.state(fn, e, cnode) is not None
+
+    ex.skip_edge = json_formatted
     iters = ex.solve(reach)
     run.stats['entry_points'] = len(entries)
     run.stats['reachable_functions'] = len(reach)
@@ -107,8 +120,6 @@ def check(ctx):
     run.floor('C15.escape', 40)
 
     # ---- C15.typestate ------------------------------------------------------------------------------------------------
-    js = JsonTypestate(prog, cg, ctx.flow, abs_)
-    run.stats['typestate_iterations'] = js.solve()
     run.stats['json_param_sources'] = sorted(f'{k[0].split(":")[-1]}({k[1]})' for k, v in js.param_state.items() if v == U)
     run.stats['getter_result_states'] = {k.split(':')[-1]: v for k, v in sorted(js.ret_state.items())}
     run.stats['raw_json_fields'] = {f'{k[0].split(".")[-1]}.{k[1]}': v for k, v in sorted(js.field_state.items())}
